@@ -1581,7 +1581,11 @@ def rotor_between_lines(L1, L2):
 @numba.njit
 def rotor_between_planes(P1, P2):
     """ return the rotor between two planes """
-    return (1 - (P2 * P1)).normal()
+    C = 1 - (P2 * P1)
+    if abs(C.value[0]) < 1E-6:
+        # facing planes (parallel, opposite orientation): 1 - P2*P1 is null and cannot be normalised
+        return rotor_between_objects_root(P1, P2)
+    return C.normal()
 
 
 @numba.njit
